@@ -243,7 +243,13 @@ Outcome(st, envv) ==
   ELSE IF st.verAt.set THEN [class |-> "stdout", kind |-> "version", vtag |-> st.verAt.vtag]
   ELSE IF st.dead # "" THEN [class |-> "stderr", why |-> [k |-> st.dead]]
   ELSE IF st.pending # "" THEN [class |-> "stderr", why |-> [k |-> "noarg"]]
-  ELSE Finish(st, envv)
+  ELSE LET n == Len(st.frames)  f == st.frames[n]
+           empty == f.pos = <<>> /\ \A i \in DOMAIN f.acc : f.acc[i] = <<>> IN
+       \* fallback_to_usage: a level that was given no arguments at all and cannot succeed on
+       \* nothing prints its help instead of failing
+       IF f.lvl.ftu /\ empty /\ ~FrameVal(st.frames, n, envv).ok
+       THEN [class |-> "stdout", kind |-> "help", path |-> st.path]
+       ELSE Finish(st, envv)
 
 (* ------------------------------------------------------------------ alphabets *)
 \* what a user can type against def; def.alpha tunes the richness per family:
